@@ -3,8 +3,9 @@
 # with the stable_pass list of /root/.vp/BASELINE.json.
 # usage: tools/baseline.sh [-n JOBS]
 J=${2:-16}
+REPO=${REPO:-/repo}
 OUT=$(mktemp /tmp/baseline.XXXX.xml)
-cd /repo && /venv/bin/python -m pytest -q -p no:cacheprovider --timeout=900 \
+cd $REPO && PYTHONPATH=$REPO /venv/bin/python -m pytest -q -p no:cacheprovider --timeout=900 \
   --continue-on-collection-errors -n "$J" --junitxml="$OUT" >/dev/null 2>&1
 /venv/bin/python - "$OUT" <<'PY'
 import json, sys, xml.etree.ElementTree as ET
